@@ -66,7 +66,15 @@ func getEnv(every int) (*env, error) {
 		cur.cases++
 		return cur, nil
 	}
-	srv, err := pgfake.Start(lpgPath())
+	var srv *pgfake.Server
+	var err error
+	// the LeanPG executable may be in the middle of being re-linked by a concurrent check: retry
+	for attempt := 0; attempt < 10; attempt++ {
+		if srv, err = pgfake.Start(lpgPath()); err == nil {
+			break
+		}
+		time.Sleep(3 * time.Second)
+	}
 	if err != nil {
 		return nil, fmt.Errorf("LeanPG not available (lake build ldriver_sql): %w", err)
 	}
